@@ -30,7 +30,8 @@ fix_time(httputil)
 SOCK_IP = "10.0.0.9"
 V4, V6 = "1.2.3.4", "2001:db8::1"
 TRUSTED_POOL = ["5.5.5.5", "6.6.6.6"]
-SCHEMES = ["http", "https", "https, http", "http,https", "ftp", ""]
+SCHEMES = ["http", "https", "https, http", "http,https", "ftp", "",
+           "HTTPS", "Http", "http, HTTPS", "HTTP ,https", "https,hTTp"]    # other spellings, also as list elements
 IDX = list(range(16))
 
 _REAL_IS_VALID_IP = netutil.is_valid_ip
@@ -305,15 +306,20 @@ def pre_proto(ssel: int, sg: str, psel: int, pg: str, https: bool, withip: bool)
         return False
     if not (len(sg) <= (P.G if ssel == nsc + 1 else 0) and len(pg) <= (P.G if psel == nsc + 1 else 0)):
         return False
+    if ssel == nsc + 1 and 6 <= psel < nsc:
+        return False      # free X-Scheme text: X-Forwarded-Proto from the first 6 pool values / absent / free
+    if withip and ssel != 0 and ssel != nsc:
+        return False      # the X-Real-Ip companion header only with X-Scheme: http / absent (bounds the product)
     return _ok_chars(sg) and _ok_chars(pg)
 
 
 @harness(
     pre=pre_proto,
-    quick=dict(G=2, timeout=150),
+    quick=dict(G=2, timeout=250),
     thorough=dict(G=4, timeout=900),
     nshards=len(SCHEMES) + 2,
-    reach=["proto_rewritten", "proto_garbage_kept", "x_scheme_over_forwarded_proto"],
+    reach=["proto_rewritten", "proto_garbage_kept", "x_scheme_over_forwarded_proto", "other_spelling_alone",
+           "other_spelling_last_in_list", "exact_last_after_other_spelling"],
     units=["httpserver._HTTPRequestContext._apply_xheaders/_unapply_xheaders", "httpserver._ProxyAdapter",
            "httpserver._CallableAdapter", "httputil.HTTPServerRequest.__init__"],
     stubs=["X-Scheme / X-Forwarded-Proto: absent, one of %r, or free text <= G cp (printable ASCII, SP, HTAB)" % (SCHEMES,),
@@ -342,12 +348,23 @@ def h_proto(ssel: int, sg: str, psel: int, pg: str, https: bool, withip: bool):
         if last in ("http", "https"):
             # documented: the proxy's (last) scheme entry is honoured, X-Scheme first
             assert pr == last, "scheme header %r not honoured (protocol %r)" % (eff, pr)
+            if "H" in eff or "T" in eff:
+                reached("exact_last_after_other_spelling")
             if pr != rig.sock_proto:
                 reached("proto_rewritten")
                 if scheme is not None and proto is not None and _ows(proto.split(",")[-1]) != last:
                     reached("x_scheme_over_forwarded_proto")
-                if ssel == nsc + 1:
-                    reached("free_text_is_scheme")
+        elif last.lower() in ("http", "https"):
+            # http/https in another spelling: the header-supplied text is NOT one of the two strings, so it must
+            # never be stored; leaving the socket protocol, or (case-insensitive acceptance) storing the lower-case
+            # form, both keep "protocol is http or https"
+            if "," in eff:
+                reached("other_spelling_last_in_list")
+            else:
+                reached("other_spelling_alone")
+            assert pr != last, "non-canonical spelling %r stored as the protocol" % (last,)
+            assert pr == rig.sock_proto or pr == last.lower(), \
+                "scheme header %r changed the protocol to %r" % (eff, pr)
         else:
             reached("proto_garbage_kept")
             assert pr == rig.sock_proto, "unusable scheme header %r changed the protocol to %r" % (eff, pr)
